@@ -43,7 +43,7 @@ func TestMain(m *testing.M) {
 			"ElementsWithinRange and ElementsContainingPoint are specified on element bounding boxes (as implemented and as their callers use them), the scan applies the same predicate to Element.BoundingBox()",
 			"don't-care band: an element whose box is within 1e-9*scale (scale = 1 + largest coordinate magnitude of set and query) of the containing / within-range decision boundary is not judged (parent cells re-centred by SetMinMax can end one ulp short of an element's own box: a tie in the sense of the statement)",
 			"ray/box band: the slab test pads every box by 1e-10; an element must be reported when the ray crosses its box padded by 0.5e-10 and must not be reported when the ray misses its box padded by 1.5e-10 (valid while element coordinates stay below 1e2 and ray origins below 1e3: enforced)",
-			"ClosestPoint: distance within 1e-9*scale of the scan minimum, the returned index attains it (ties aside) and the returned point is that element's closest point; queries for which an element's own ClosestPoint is non-finite (zero-area triangle, zero-length segment) or lies outside its own box are not judged for ClosestPoint (counted)",
+			"ClosestPoint: distance within 1e-9*scale of the scan minimum, the returned index attains it (ties aside) and the returned point is that element's closest point; every element's own ClosestPoint must be finite and equal (1e-7*scale) the distance from the query to the primitive computed from the case's vertices (triangles without area: their edges; triangles whose altitude is below 1e-4 of their longest edge are counted, not judged); a query for which an element's answer lies outside its own box by more than the band is not judged for the tree (counted: a dozen per run, rounding on thin triangles)",
 			"TraverseIntersectingRay with a shrinking max: the hit of an element is defined by the harness as the midpoint of the ray's interval inside the element's box (padded 0.5e-10); the traversal must deliver the exact minimum over the scan",
 			"ray-hit structures are compared with min = 0 only (Triangle.Hit measures max from the min-shifted origin, which makes the nearest hit order dependent for min > 0 independently of any index); rays for which a triangle is a near hit whose Moller-Trumbore hit point is not accurate to 1e-11 (slivers, grazing rays) are not judged (counted)",
 			"rendering.Sphere is out of domain (the property quantifies over points, segments and triangles)",
